@@ -1,6 +1,6 @@
 #!/bin/sh
 # tools/with_patch.sh <patch.diff> <command...> : apply a patch to /repo, run the command, always restore /repo
-P="$1"; shift
+P="$(readlink -f "$1")"; shift
 git -C /repo apply "$P" || { echo "patch does not apply"; exit 3; }
 "$@"; rc=$?
 git -C /repo checkout -- . 
